@@ -175,7 +175,7 @@ class _Accept(object):
 
     def best_match(self, options, default=None):
         opts = list(options)
-        return opts[self.choice] if 0 <= self.choice < len(opts) else None   # contract: an element of its argument or None
+        return opts[self.choice] if 0 <= self.choice < len(opts) else default   # contract: an element of its argument, or `default` (None unless given)
 
 
 class _Req(object):
@@ -184,6 +184,7 @@ class _Req(object):
 
 
 PRE = [None, 'text/html', 'application/json', 'application/xml', 'text/plain']
+_MAP0 = dict(MIME_SUPPORT_MAP)          # the four formats, as imported
 
 
 def _check_negotiation(code_i, choice, which, pre_i=0):
@@ -196,6 +197,12 @@ def _check_negotiation(code_i, choice, which, pre_i=0):
             e = cls(mimetype='application/json')
         except TypeError:
             e = cls()
+    elif pre_i == 6:
+        e.adapt('text/csv')          # an unsupported type asked for earlier: plain text, and nothing is remembered
+        if not e.headers['Content-Type'].startswith('text/plain'):
+            return False
+    if dict(MIME_SUPPORT_MAP) != _MAP0:
+        return False
     req = _Req(choice)
     if which == 0:
         out = ErrorHandler().render_error(req, e)
@@ -207,7 +214,7 @@ def _check_negotiation(code_i, choice, which, pre_i=0):
     m = opts[choice] if 0 <= choice < len(opts) else None
     fmt = MIME_SUPPORT_MAP.get(m, 'text')
     return out.get_data(True) == getattr(e, 'to_' + fmt)() and out.headers['Content-Type'].startswith(m or 'text/plain') \
-        and out.status_code == cls.code
+        and out.status_code == cls.code and dict(MIME_SUPPORT_MAP) == _MAP0
 
 
 def ob_negotiation(code_i: int, choice: int, which: int, pre_i: int = 0) -> bool:
@@ -224,10 +231,18 @@ def _real_accept(acc_i, code_i):
     from werkzeug.wrappers import Request
     from werkzeug.test import EnvironBuilder
     ACC = [None, 'text/html', 'application/json', 'application/xml', 'text/plain', '*/*', 'image/png', 'text/html;q=0.1, application/json',
-           'application/xml;q=0', '', 'garbage;;;', 'text/*']
+           'application/xml;q=0', '', 'garbage;;;', 'text/*', 'text/csv, application/json;q=0.9', 'application/pdf, application/xml;q=0.2']
     hdrs = {} if ACC[acc_i] is None else {'Accept': ACC[acc_i]}
     req = Request(EnvironBuilder(path='/', headers=hdrs).get_environ())
+    # earlier in the process: errors built with / adapted to unsupported types, and one instance served as HTML before
+    try:
+        NotFound(mimetype='text/csv')
+    except Exception:
+        pass
+    NotFound().adapt('application/pdf')
     e = ERROR_CODE_MAP[CODES[code_i]]()
+    if acc_i % 2:
+        e.adapt('text/html')
     out = ErrorHandler().render_error(req, e)
     ct = out.headers['Content-Type'].split(';')[0]
     fmt = MIME_SUPPORT_MAP.get(ct)
@@ -238,5 +253,11 @@ def _real_accept(acc_i, code_i):
     if ACC[acc_i] in ('image/png', 'application/xml;q=0') and ct != 'text/plain':
         return False
     if ACC[acc_i] in ('text/html', 'application/json', 'application/xml', 'text/plain') and ct != ACC[acc_i]:
+        return False
+    if ACC[acc_i] in (None, '', 'garbage;;;') and ct != 'text/plain':
+        return False
+    if ACC[acc_i] == 'text/csv, application/json;q=0.9' and ct != 'application/json':
+        return False
+    if ACC[acc_i] == 'application/pdf, application/xml;q=0.2' and ct != 'application/xml':
         return False
     return True
